@@ -96,7 +96,7 @@ def tr_i(n):
     bad(n, "integer expression not understood")
 
 
-CMPS = {ast.Lt: "CLt", ast.Gt: "CGt", ast.GtE: "CGe", ast.Eq: "CEq"}
+CMPS = {ast.Lt: "CLt", ast.Gt: "CGt", ast.GtE: "CGe", ast.Eq: "CEq", ast.LtE: "CLe", ast.NotEq: "CNe"}
 
 
 def tr_b(n):
